@@ -21,7 +21,7 @@ fn write_tokio_ffi() {
 
 fn main() {
     println!("cargo:rerun-if-changed=build.rs");
-    println!("cargo::rustc-check-cfg=cfg(dnp3_verif)");
+    println!("cargo:rustc-check-cfg=cfg(dnp3_verif)");
 
     write_tracing_ffi();
     write_tokio_ffi();
